@@ -179,22 +179,14 @@ func (e *Env) Eval(x Expr) (interface{}, error) {
 		r, err := e.Eval(n.R)
 		switch n.Op {
 		case "&&", "||":
+			// the property is unconditional: an ill-typed operation or a division by zero makes the
+			// rule fail - also in the right operand of && / || (both operands are evaluated)
 			if err != nil {
-				// an error in the right operand: only defined when a short-circuit evaluator
-				// would have evaluated it too
-				if lb, ok := l.(bool); ok && isFault(err) {
-					if (n.Op == "&&" && !lb) || (n.Op == "||" && lb) {
-						return nil, ErrUndefined
-					}
-				}
 				return nil, err
 			}
 			lb, ok1 := l.(bool)
 			rb, ok2 := r.(bool)
 			if !ok1 || !ok2 {
-				if ok1 && ((n.Op == "&&" && !lb) || (n.Op == "||" && lb)) {
-					return nil, ErrUndefined
-				}
 				return nil, ErrFault
 			}
 			if n.Op == "&&" {
